@@ -154,6 +154,16 @@ class Prop:
             nodes = B.shape_to_nodes(shape, lambda i, d, s, ks=ks: (i % len(hu), KF[ks[i]], f"id{i}"))
             yield dict(typed=True, univ=hu, nodes=nodes, query=["", "a", "c"], order_seed=rng.randrange(10 ** 6),
                        hist=NH.random_hist(rng, n, len(hu), True, rng.randint(0, 4)))
+        # same-length replacements (remove + add of the same kind, sort) with a query before the first op only
+        for n in range(2, 5 if tier == "quick" else 6):
+            for si, shape in enumerate(H.forests(n)):
+                if n >= 4 and tier == "quick" and si % 3:
+                    continue
+                nodes = B.shape_to_nodes(shape, lambda i, d, s: (i % len(hu), KINDS[(i // 2) % 2], f"id{n - i}"))
+                for hi, hist in enumerate(NH.replace_same_length(nodes, True)):
+                    if n >= 3 and (hi + si) % 2:
+                        continue
+                    yield dict(typed=True, univ=hu, nodes=nodes, query=KINDS, hist=hist, probe=[0])
         # aimed query - mutate - query: clear (alone, and followed by new nodes), sort, on every small forest
         for n in range(1, 4):
             for shape in H.forests(n):
@@ -182,20 +192,33 @@ class Prop:
         hist_fail = None
         if "hist" in desc:
             early = []
+            pr = desc.get("probe", True)      # True: query before every op; [k, ...]: only before these steps; False: never
 
             def probe(tree, U, objs, sh, errors, k):
                 # QUERY - mutate - query again: every query is asked before every op of the history as well, on the same
                 # tree object (an index or cache that some mutator forgets to reset would answer from the old state)
+                if pr is not True and k not in pr:
+                    return      # no query between these two ops (a cache validated by a length only sees the same length)
                 f = NH.consistency(tree, objs, sh, errors) or self._observe(tree, U, desc)[1]
                 if f and not early:
                     early.append(f"before step {k} of the history: {f}")
 
-            tree, U, objs, sh, errors = NH.build_hist(desc, probe if desc.get("probe", True) else None)
+            tree, U, objs, sh, errors = NH.build_hist(desc, probe if pr else None)
             hist_fail = (early[0] if early else None) or NH.consistency(tree, objs, sh, errors)
         else:
             tree, U = B.build(desc)
+        # results handed out by queries are caller-owned (see nav_hist.poison_results): mutate every returned list on
+        # another tree of the same description (t0) and on this tree, then ask everything again
+        pfail = None
+        if desc.get("poison", True):
+            t0, U0 = NH.build_hist(desc)[:2] if "hist" in desc else B.build(desc)
+            kinds = tuple(desc["query"]) + ("zz",)
+            pfail = NH.poison_results(t0, True, kinds) or NH.poison_results(tree, True, kinds)
         obs, fail, nodes, coq = self._observe(tree, U, desc)
-        fail = hist_fail or fail
+        if desc.get("poison", True) and not pfail:
+            f0 = self._observe(t0, U0, desc)[1]
+            pfail = f0 and f"after mutating the lists handed out by the queries of another tree: {f0}"
+        fail = hist_fail or pfail or (fail and (f"(after mutating the lists handed out by the queries) {fail}" if desc.get("poison", True) else fail))
         kinds_in_sibs = [len({c.kind for c in (p._children or [])}) for p in [tree._root] + nodes]
         sizes = [len(p._children or []) for p in [tree._root] + nodes]
         return Case(desc=desc, coq_input=coq, impl_obs=obs, oracle_fail=fail,
